@@ -49,3 +49,15 @@ for cfg in extract.CONFIGS:
 with open(os.path.join(HERE, "vlib", "known_sigs.json"), "w") as fh:
     json.dump(sigs, fh, indent=0, sort_keys=True)
 print("recorded %d signatures" % len(sigs))
+
+# the constants / statics that exist on the confirmed tree: a literal constant that is not in this set was introduced later
+# (`const PREFIX: &[u8] = b"..";`) and is read as the literal it names (vlib/prov.py)
+ck = set()
+for cfg in extract.CONFIGS:
+    with open(extract.extract(cfg)) as fh:
+        d = json.load(fh)
+        for c in d["consts"] + d["statics"]:
+            ck.add(c["key"])
+with open(os.path.join(HERE, "vlib", "known_consts.json"), "w") as fh:
+    json.dump(sorted(ck), fh, indent=0)
+print("recorded %d known constants" % len(ck))
